@@ -10,7 +10,21 @@ import numpy as np
 GEO, PROJ = 4326, 3857
 
 
-def _crs(tag):
+LAEA = {"L1": "+proj=laea +lat_0=52 +lon_0=10 +x_0=0 +y_0=0 +ellps=GRS80 +units=m +no_defs",
+        "L2": "+proj=laea +lat_0=40 +lon_0=-5 +x_0=0 +y_0=0 +ellps=GRS80 +units=m +no_defs"}
+
+
+def _crs(tag, warm=False):
+    """a NEW CRS object per operand; warm: its lazy EPSG lookup has already happened (as xr_coords / assign_crs do)"""
+    from odc.geo.crs import CRS
+
+    crs = _crs0(tag)
+    if warm and crs is not None:
+        _ = crs.epsg
+    return crs
+
+
+def _crs0(tag):
     import pyproj
 
     from odc.geo.crs import CRS
@@ -18,6 +32,8 @@ def _crs(tag):
     cls, sp = tag
     if cls == "none":
         return None
+    if cls in LAEA:
+        return CRS(LAEA[cls])
     code = GEO if cls == "G" else PROJ
     return CRS(f"epsg:{code}") if sp == "epsg" else CRS(pyproj.CRS.from_epsg(code).to_wkt())
 
@@ -130,7 +146,7 @@ def execute(c):
     from odc.geo.geobox import GeoBox, geobox_intersection_conservative, geobox_union_conservative
 
     op, tags, kinds = c["op"], c["tags"], c["kinds"]
-    crss = [_crs(t) for t in tags]
+    crss = [_crs(t, c.get("warm", False)) for t in tags]
     ev = {"c": c, "tags": tags, "shp": "ok", "odc": {"oc": "ok", "crs_ok": True, "same": True, "is_value_error": False}}
 
     def finish(oc, val, soc, sval, first_crs, check_crs=True):
